@@ -28,6 +28,11 @@ Expression trees (tuples, concrete per obligation)
                                    repl = 'E' (the symbolic string e, via @[E]@) or a literal
     ('filter', L)  ('grep', rx)
     ('seq', T, T, ...)             T | T | ...
+    ('ref', NAME, T)               reference to the text-transformer symbol NAME, which is defined as T
+                                   (def text-transformer NAME = T)
+    ('attach', T, T, ...)          (not syntax) the transformers that `-transformed-by` options attach, one after
+                                   the other, to a program: combined by sequence_resolving.resolve
+    ('attach-ddv', T, T, ...)      the same, combined at the ddv level by sequence_resolving_ddv.resolve
 """
 from typing import Callable, Dict, List, Optional, Sequence, Tuple
 
@@ -393,11 +398,51 @@ def ref_transformer(t, s: str, env: Env) -> str:
             return ''.join([line for line in ref_lines(s) if ref_contains(ref_line_contents(line), env.e)])
         search = REGEXES[t[1]][1]
         return ''.join([line for line in ref_lines(s) if search(ref_line_contents(line))])
-    if k == 'seq':
+    if k == 'seq' or k == 'attach' or k == 'attach-ddv':
         for x in t[1:]:
             s = ref_transformer(x, s, env)
         return s
+    if k == 'ref':
+        return ref_transformer(t[2], s, env)
     raise ValueError(t)
+
+
+def ref_is_identity(t) -> bool:
+    """Is the documented meaning of the transformer expression the identity BY CONSTRUCTION: it is `identity`,
+    a composition of such expressions (`identity` is neutral for `|`), or a symbol defined as one."""
+    k = t[0]
+    if k == 'identity':
+        return True
+    if k == 'ref':
+        return ref_is_identity(t[2])
+    if k == 'seq' or k == 'attach' or k == 'attach-ddv':
+        for x in t[1:]:
+            if not ref_is_identity(x):
+                return False
+        return True
+    return False
+
+
+def leaves_in_order(t) -> list:
+    """The members of a (nested) composition, left to right, compositions and symbol definitions opened up."""
+    k = t[0]
+    if k == 'ref':
+        return leaves_in_order(t[2])
+    if k == 'seq' or k == 'attach' or k == 'attach-ddv':
+        out = []
+        for x in t[1:]:
+            out += leaves_in_order(x)
+        return out
+    return [t]
+
+
+def instantiate(shape, leaves):
+    """shape: a transformer tree whose leaves are position numbers -> the tree with leaves[i] at position i"""
+    if isinstance(shape, int):
+        return leaves[shape]
+    if shape[0] == 'ref':
+        return ('ref', shape[1], instantiate(shape[2], leaves))
+    return (shape[0],) + tuple(instantiate(x, leaves) for x in shape[1:])
 
 
 # =========================================================================== concrete syntax
@@ -479,7 +524,25 @@ def render_transformer(t, simple: bool = False) -> str:
     if k == 'seq':
         r = ' | '.join(render_transformer(x, True) for x in t[1:])
         return '( ' + r + ' )' if simple else r
+    if k == 'ref':
+        return t[1]
+    if k == 'attach' or k == 'attach-ddv':
+        # not parsed as a whole: each operand is parsed on its own
+        return ' '.join('-transformed-by ' + render_transformer(x, True) for x in t[1:])
     raise ValueError(t)
+
+
+def symbol_definitions(t, acc=None) -> Dict[str, tuple]:
+    """NAME -> T of every ('ref', NAME, T) of the tree (a name must have ONE definition)"""
+    acc = acc if acc is not None else {}
+    if isinstance(t, tuple):
+        if t[0] == 'ref':
+            if acc.get(t[1], t[2]) != t[2]:
+                raise ValueError('harness error: two definitions of the symbol %s' % t[1])
+            acc[t[1]] = t[2]
+        for x in t[1:]:
+            symbol_definitions(x, acc)
+    return acc
 
 
 def uses(t, kind: str) -> bool:
@@ -540,20 +603,37 @@ def string_symbol(value: str):
     return SymbolContainer(string_sdvs.str_constant(value), ValueType.STRING, None)
 
 
-def symbols(env: Env, log: Optional[List] = None):
-    """Symbol table: E = the symbolic string, U = line matcher of unknown class."""
+def symbols(env: Env, log: Optional[List] = None, tree=None):
+    """Symbol table: E = the symbolic string, U = line matcher of unknown class; and, for every
+    ('ref', NAME, T) of `tree`, NAME = what the REAL parser makes of the concrete syntax of T (as
+    `def text-transformer NAME = T` does)."""
     from vsym import xly
+    from exactly_lib.symbol.sdv_structure import SymbolContainer
     from exactly_lib.symbol.value_type import ValueType
     u = env.u
 
     def verdict(model):
         return u[model[0] - 1]
 
-    return xly.symbol_table({
+    entries = {
         'E': string_symbol(env.e),
         'U': xly.matcher_symbol(xly.StubMatcher('U', verdict, log if log is not None else []),
                                 ValueType.LINE_MATCHER),
-    })
+    }
+    if tree is not None:
+        for name, definition in symbol_definitions(tree).items():
+            entries[name] = SymbolContainer(parse_transformer_cached(definition), ValueType.STRING_TRANSFORMER, None)
+    return xly.symbol_table(entries)
+
+
+def parse_transformer_cached(tree):
+    """concrete syntax of the tree -> REAL parser -> sdv (cached per source text; parsed with tracing suspended:
+    the text is concrete)"""
+    from vsym import xly
+    from exactly_lib.impls.types.string_transformer import parse_string_transformer
+    with untraced():
+        return xly.parse_cached('string-transformer', parse_string_transformer.parsers(False).full,
+                                render_transformer(tree))
 
 
 def real_matcher(tree, env: Env, log: Optional[List] = None):
@@ -562,7 +642,7 @@ def real_matcher(tree, env: Env, log: Optional[List] = None):
     from exactly_lib.impls.types.string_matcher import parse_string_matcher
     xly.install_int_placeholders([env.k0, env.k1])
     sdv = xly.parse_cached('string-matcher', parse_string_matcher.parsers(False).full, render_matcher(tree))
-    ddv = sdv.resolve(symbols(env, log))
+    ddv = sdv.resolve(symbols(env, log, tree))
     return ddv.value_of_any_dependency(None).primitive(app_env())
 
 
@@ -570,9 +650,21 @@ def real_transformer(tree, env: Env, log: Optional[List] = None):
     from vsym import xly
     from exactly_lib.impls.types.string_transformer import parse_string_transformer
     xly.install_int_placeholders([env.k0, env.k1])
-    sdv = xly.parse_cached('string-transformer', parse_string_transformer.parsers(False).full,
-                           render_transformer(tree))
-    ddv = sdv.resolve(symbols(env, log))
+    if tree[0] == 'attach':
+        # what the sites that attach transformers to a program do with the accumulated list
+        from exactly_lib.impls.types.string_transformer import sequence_resolving
+        return sequence_resolving.resolve([real_transformer(x, env, log) for x in tree[1:]])
+    if tree[0] == 'attach-ddv':
+        from exactly_lib.impls.types.string_transformer import sequence_resolving_ddv
+        table = symbols(env, log, tree)
+        ddv = sequence_resolving_ddv.resolve([parse_transformer_cached(x).resolve(table) for x in tree[1:]])
+        return ddv.value_of_any_dependency(None).primitive(app_env())
+    if uses(tree, 'ref'):
+        sdv = parse_transformer_cached(tree)
+    else:
+        sdv = xly.parse_cached('string-transformer', parse_string_transformer.parsers(False).full,
+                               render_transformer(tree))
+    ddv = sdv.resolve(symbols(env, log, tree))
     return ddv.value_of_any_dependency(None).primitive(app_env())
 
 
